@@ -121,8 +121,8 @@ def join(a, b):
         elif k == 'elts':
             if len(va) == len(vb):
                 out[k] = [join(x, y) for x, y in zip(va, vb)]
-        elif k == 'kw':
-            out[k] = {n: join(va.get(n), vb.get(n)) for n in set(va) | set(vb)}
+        elif k in ('kw', 'cols'):
+            out[k] = {n: join(va.get(n), vb.get(n)) for n in list(va) + [x for x in vb if x not in va]}
         elif k == 'elem':
             out[k] = join(va, vb)
         elif k == 'valset':
